@@ -157,6 +157,7 @@ def replay(v, scratch):
     role = v["role"]
     site = v["site"]
     main = aead.NATIVE_USES + r'''
+extern crate libsodium_sys;   // links libsodium
 extern "C" {
     fn crypto_secretbox_easy(c: *mut u8, m: *const u8, mlen: u64, n: *const u8, k: *const u8) -> i32;
 }
